@@ -191,6 +191,8 @@ def blocks(draw, feat, depth, lo=1, hi=4, ctx=()):
             tight_join = "tightjoin" in feat and draw(st.integers(0, 5)) == 0
             if (len(b) == 1 and b[0].lstrip().startswith(("{%", "{#", "<!--"))) or (out and out[-1].lstrip().startswith(("{%", "{#", "<!--"))):
                 tight_join = False  # tag lines stand between blank lines (the documented way to use them)
+            if b and "|" in b[0] and not b[0].lstrip().startswith(("`", "~")):
+                tight_join = False  # a table directly under paragraph text is not a table in GFM
             if "refdef_tightjoin" not in feat and out and _re.match(r"^\s*\[[^\]]+\]:", out[-1]):
                 tight_join = False  # text directly after a link definition: recorded known finding (title capture)
             if not tight_join: out.append("")
